@@ -282,7 +282,11 @@ impl<'a> IVP for Instr<'a> {
         // every way of building the same configuration (the setters must commute): odd-numbered functions set the
         // occurrence count first and then the direction through all() / positive() / negative()
         if i % 2 == 0 {
-            c.direction(Direction::from(e.dir as i32));
+            // the integer conversion maps every positive value to Positive and every negative one to Negative:
+            // use magnitudes other than 1 as well (chosen by a hash of the function's parameters)
+            let h = format!("{:?}", e.g).bytes().fold(0u32, |a, b| a.wrapping_mul(31).wrapping_add(b as u32));
+            let mult = [1i32, 2, 1000, i32::MAX][(h % 4) as usize];
+            c.direction(Direction::from((e.dir as i32).saturating_mul(mult)));
             if let Some(k) = e.terminal {
                 c.terminal_count(k);
             }
